@@ -1,5 +1,869 @@
-//! C07 — not built yet.
+//! C07 — conditionals deliver only the selected branch; `\expandafter` acts on one token; `\noexpand`.
+//! DESIGN.md §3 C07. Engine: BEX on a minimal-state VM (shared with C02, `../c02/src/mini.rs`).
+//!
+//! Oracles (reftex::cond): O1 the token list of a conditional tree *by construction* (letters of the
+//! selected branches) cross-checked on every tree against the reference expander; O2 the reference
+//! expander (tex.web §358, §366-369, §494-510 transliterated) with the don't-expand marker as a switch.
+//! Three-way comparison for `\expandafter`: VM with `get_expandafter_simple`, VM with
+//! `get_expandafter_optimized`, reference expander.
+
+#[path = "../../c02/src/mini.rs"]
+mod mini;
+
+use mini::*;
+use reftex::cond::{self, Cond, Env, FormItem, Head, Item, Meaning, Shape, Stop, Variant};
+use reftex::macros::{self as mm, Tok};
+use serde_json::{json, Value};
+use std::sync::atomic::{AtomicU64, Ordering};
+use std::sync::Mutex;
+use vcore::{Acc, Ctx, Level};
+
+const END: Tok = Tok::Cs("END");
+const LP: Tok = Tok::Ch('(', 12);
+const RP: Tok = Tok::Ch(')', 12);
+
+// ---------------------------------------------------------------- model bookkeeping
+
+static MODEL_DISAGREE: AtomicU64 = AtomicU64::new(0);
+static MODEL_DISAGREE_MSG: Mutex<Vec<String>> = Mutex::new(Vec::new());
+fn model_disagreement(msg: String) {
+    if MODEL_DISAGREE.fetch_add(1, Ordering::Relaxed) < 5 {
+        MODEL_DISAGREE_MSG.lock().unwrap().push(msg);
+    }
+}
+fn after_family(ctx: &mut Ctx) {
+    let n = MODEL_DISAGREE.swap(0, Ordering::Relaxed);
+    if n > 0 {
+        let msgs = std::mem::take(&mut *MODEL_DISAGREE_MSG.lock().unwrap());
+        ctx.machinery_error(format!("the tree oracle (by construction) and the reference expander disagree on {n} case(s); first: {}", msgs.join(" || ")));
+    }
+}
+
+// ---------------------------------------------------------------- conditional trees
+
+const TREE_PREAMBLE: &str = "\\let\\myif=\\iftrue\\let\\myfi=\\fi\\let\\myelse=\\else\\def\\hidfi{\\fi}";
+fn tree_env() -> Env {
+    let mut e = cond::primitives();
+    e.insert("myif", Meaning::IfTrue);
+    e.insert("myfi", Meaning::Fi);
+    e.insert("myelse", Meaning::Else);
+    e.insert("hidfi", Meaning::Macro(vec![Tok::Cs("fi")]));
+    e
+}
+
+fn variant_json(v: &Variant) -> Value {
+    let head = match v.head {
+        Head::IfTrue => json!("iftrue"),
+        Head::IfFalse => json!("iffalse"),
+        Head::AliasTrue => json!("alias-true"),
+        Head::IfNum(a, r, b) => json!({"ifnum": [a, r.to_string(), b]}),
+        Head::IfOdd(n) => json!({"ifodd": n}),
+        Head::IfCase(n) => json!({"ifcase": n}),
+    };
+    json!({"head": head, "ors": v.ors, "else": v.has_else})
+}
+fn variant_parse(v: &Value) -> Variant {
+    let h = &v["head"];
+    let head = if h == "iftrue" {
+        Head::IfTrue
+    } else if h == "iffalse" {
+        Head::IfFalse
+    } else if h == "alias-true" {
+        Head::AliasTrue
+    } else if let Some(a) = h["ifnum"].as_array() {
+        Head::IfNum(a[0].as_i64().unwrap(), a[1].as_str().unwrap().chars().next().unwrap(), a[2].as_i64().unwrap())
+    } else if let Some(n) = h["ifodd"].as_i64() {
+        Head::IfOdd(n)
+    } else {
+        Head::IfCase(h["ifcase"].as_i64().unwrap())
+    };
+    Variant::new(head, v["ors"].as_u64().unwrap_or(0) as usize, v["else"].as_bool().unwrap_or(false))
+}
+fn cond_json(c: &Cond) -> Value {
+    json!({"v": variant_json(&c.v), "bodies": c.bodies.iter().map(|b| b.iter().map(|it| match it {
+        Item::Letter => json!("L"),
+        Item::Junk(t) => json!({"junk": tok_json(*t)}),
+        Item::Cond(c) => cond_json(c),
+    }).collect::<Vec<_>>()).collect::<Vec<_>>()})
+}
+fn cond_parse(v: &Value) -> Cond {
+    Cond {
+        v: variant_parse(&v["v"]),
+        bodies: v["bodies"]
+            .as_array()
+            .unwrap()
+            .iter()
+            .map(|b| {
+                b.as_array()
+                    .unwrap()
+                    .iter()
+                    .map(|it| {
+                        if it == "L" {
+                            Item::Letter
+                        } else if let Some(j) = it["junk"].as_str() {
+                            Item::Junk(tok_parse(j))
+                        } else {
+                            Item::Cond(cond_parse(it))
+                        }
+                    })
+                    .collect()
+            })
+            .collect(),
+    }
+}
+
+fn text_of(tokens: &[Tok]) -> String {
+    render(tokens, false).expect("the token strings of this check can all be written as source text")
+}
+
+/// One tree: run, compare with the expectation by construction; the reference expander must agree with
+/// the construction as well.
+/// `distinct`: count the case among the distinct non-trivial ones (false for re-runs and for trees that
+/// another family also enumerates).
+fn check_tree(idx: u64, c: &Cond, full_state: bool, distinct: bool, acc: &mut Acc) {
+    acc.eval();
+    let r = c.render();
+    let mut tokens = vec![LP];
+    tokens.extend_from_slice(&r.tokens);
+    tokens.push(RP);
+    tokens.push(END);
+    let mut want = vec![LP];
+    want.extend_from_slice(&r.expected);
+    want.push(RP);
+    want.push(END);
+    // second oracle
+    let env = tree_env();
+    let (x, ev) = cond::expand_all(&env, &tokens, true);
+    if x.as_ref() != Ok(&want) {
+        model_disagreement(format!("{}: by construction {} / expander {:?}", mm::show(&tokens), mm::show(&want), x));
+    }
+    let src = format!("{TREE_PREAMBLE}{}", text_of(&tokens));
+    let out = if full_state { run_full(&src, &[], false) } else { run_m(&src, &[], false) };
+    let f = &r.facts;
+    if f.some_branch_skipped && f.some_branch_delivered {
+        acc.count("trees_with_a_skipped_and_a_delivered_branch");
+        if distinct {
+            acc.nontrivial();
+        }
+    }
+    for (name, on) in [
+        ("aliased_conditional_in_skipped_text", f.aliased_conditional_in_skipped_text),
+        ("or_at_depth_gt0_in_skipped_text", f.or_at_depth_gt0_in_skipped_text),
+        ("else_at_depth_gt0_in_skipped_text", f.else_at_depth_gt0_in_skipped_text),
+        ("ifcase_out_of_range", f.ifcase_out_of_range),
+        ("ifcase_negative", f.ifcase_negative),
+        ("ifodd_negative_odd_evaluated", f.negative_odd_live),
+        ("brace_in_skipped_text", f.brace_in_skipped_text),
+        ("live_case_branch_ended_by_or", f.live_branch_ended_by_or),
+        ("depth_ge_4", f.depth >= 4),
+        ("depth_6", f.depth >= 6),
+    ] {
+        if on {
+            acc.count(name);
+        }
+    }
+    let _ = ev;
+    let ok = matches!(&out, Outcome::Done(o) if o.err.is_none() && o.toks == want);
+    if ok {
+        acc.class(&format!("tree ok nodes={} depth={} delivered={}", f.nodes, f.depth, r.expected.len().min(9)));
+        return;
+    }
+    if let Outcome::Cutoff = out {
+        acc.cutoffs += 1;
+        return;
+    }
+    let class = if f.negative_odd_live { "tree DIFFERS (a live \\ifodd on a negative odd number)" } else { "tree DIFFERS (other)" };
+    acc.class(&format!("{class} impl={}", out.class()));
+    acc.fail(idx, json!({"kind": "tree", "tree": cond_json(c), "full_state": full_state, "program": src}), mm::show(&want), out.show(), class);
+}
+
+fn wide_variants() -> Vec<Variant> {
+    let mut v = vec![];
+    for e in [false, true] {
+        v.push(Variant::new(Head::IfTrue, 0, e));
+        v.push(Variant::new(Head::IfFalse, 0, e));
+        v.push(Variant::new(Head::AliasTrue, 0, e));
+        for (n, m) in [(0, 0), (1, 0), (0, 1), (1, 1), (2, 1), (-1, 1), (1, 2), (2, 2)] {
+            v.push(Variant::new(Head::IfCase(n), m, e));
+        }
+    }
+    v
+}
+fn deep_variants() -> Vec<Variant> {
+    vec![Variant::new(Head::IfTrue, 0, false), Variant::new(Head::IfTrue, 0, true), Variant::new(Head::IfFalse, 0, false), Variant::new(Head::IfFalse, 0, true), Variant::new(Head::IfCase(1), 1, false)]
+}
+fn forms(with_empty: bool) -> Vec<Vec<FormItem>> {
+    use FormItem::*;
+    let mut f = vec![vec![L], vec![C], vec![L, C], vec![C, L], vec![C, C]];
+    if with_empty {
+        f.insert(0, vec![]);
+    }
+    f
+}
+
+/// All decorated versions of a skeleton: the skeleton itself, every single junk insertion and (if
+/// `pairs`) every pair of insertions.
+fn for_each_decoration(skel: &Cond, pairs: bool, mut f: impl FnMut(&Cond)) {
+    f(skel);
+    let slots = skel.junk_slots();
+    let mut singles: Vec<(usize, usize, Tok)> = vec![];
+    for (b, p, c) in &slots {
+        for j in cond::junk_menu(*c) {
+            singles.push((*b, *p, j));
+        }
+    }
+    for (b, p, j) in &singles {
+        let mut t = skel.clone();
+        t.insert_junk(*b, *p, *j);
+        f(&t);
+    }
+    if pairs {
+        // insert the later slot first so that the earlier position stays valid; same slot: both orders arise
+        for (i, a) in singles.iter().enumerate() {
+            for b in singles.iter().skip(i) {
+                let mut t = skel.clone();
+                t.insert_junk(b.0, b.1, b.2);
+                t.insert_junk(a.0, a.1, a.2);
+                f(&t);
+            }
+        }
+    }
+}
+
+/// The full menu of conditions of DESIGN C07 A1.
+fn all_conditions() -> Vec<Variant> {
+    let mut v = vec![];
+    for e in [false, true] {
+        v.push(Variant::new(Head::IfTrue, 0, e));
+        v.push(Variant::new(Head::IfFalse, 0, e));
+        v.push(Variant::new(Head::AliasTrue, 0, e));
+        let ops = [-3i64, -1, 0, 1, 2, 2147483647];
+        for a in ops {
+            for r in ['<', '=', '>'] {
+                for b in ops {
+                    v.push(Variant::new(Head::IfNum(a, r, b), 0, e));
+                }
+            }
+        }
+        for n in [3i64, -3, 2, -2, 1, -1, 0, 2147483647, -2147483647] {
+            v.push(Variant::new(Head::IfOdd(n), 0, e));
+        }
+        for n in [-1i64, 0, 1, 2, 3, 7] {
+            for m in 0..=3 {
+                v.push(Variant::new(Head::IfCase(n), m, e));
+            }
+        }
+    }
+    v
+}
+
+/// Contexts in which a probe conditional is placed (index, description).
+const N_CONTEXTS: u64 = 10;
+fn in_context(k: u64, p: Cond) -> Cond {
+    let l = || Item::Letter;
+    let t = |e: bool| Variant::new(Head::IfTrue, 0, e);
+    let f = |e: bool| Variant::new(Head::IfFalse, 0, e);
+    let case = |n: i64, m: usize, e: bool| Variant::new(Head::IfCase(n), m, e);
+    match k {
+        0 => p,
+        1 => Cond { v: t(false), bodies: vec![vec![l(), Item::Cond(p), l()]] },
+        2 => Cond { v: f(true), bodies: vec![vec![l()], vec![Item::Cond(p), l()]] },
+        3 => Cond { v: f(false), bodies: vec![vec![l(), Item::Cond(p), l()]] },
+        4 => Cond { v: t(true), bodies: vec![vec![l()], vec![Item::Cond(p)]] },
+        5 => Cond { v: case(1, 1, false), bodies: vec![vec![l(), Item::Cond(p)], vec![l()]] },
+        6 => Cond { v: case(1, 2, false), bodies: vec![vec![l()], vec![Item::Cond(p), l()], vec![l()]] },
+        7 => Cond { v: case(5, 1, true), bodies: vec![vec![l()], vec![l()], vec![Item::Cond(p)]] },
+        8 => Cond { v: case(0, 0, true), bodies: vec![vec![l()], vec![Item::Cond(p)]] },
+        _ => Cond { v: f(false), bodies: vec![vec![Item::Cond(Cond { v: t(false), bodies: vec![vec![Item::Cond(p)]] })]] },
+    }
+}
+fn probe_bodies(v: &Variant, pattern: u64) -> Vec<Vec<Item>> {
+    (0..v.branches())
+        .map(|_| match pattern {
+            0 => vec![Item::Letter],
+            1 => vec![Item::Letter, Item::Cond(Cond { v: Variant::new(Head::IfFalse, 0, true), bodies: vec![vec![Item::Letter], vec![Item::Letter]] })],
+            _ => vec![],
+        })
+        .collect()
+}
+
+/// A straight nest of conditionals: level i is variant `levels[i].0`, the next level sits in its body
+/// number `levels[i].1` between two letters; all other bodies are one letter.
+fn chain(levels: &[(Variant, usize)]) -> Cond {
+    let mut inner: Option<Cond> = None;
+    for (v, host) in levels.iter().rev() {
+        let bodies = (0..v.branches())
+            .map(|b| {
+                if b == *host {
+                    match inner.take() {
+                        Some(c) => vec![Item::Letter, Item::Cond(c), Item::Letter],
+                        None => vec![Item::Letter],
+                    }
+                } else {
+                    vec![Item::Letter]
+                }
+            })
+            .collect();
+        inner = Some(Cond { v: v.clone(), bodies });
+    }
+    inner.unwrap()
+}
+
+// ---------------------------------------------------------------- \expandafter / \noexpand strings
+
+struct XEnv {
+    name: &'static str,
+    preamble: &'static str,
+    env: Env,
+    alphabet: Vec<Tok>,
+}
+fn x_envs() -> Vec<XEnv> {
+    let cs = Tok::Cs;
+    let base = vec![cs("xa"), cs("noexpand"), cs("a"), cs("b"), cs("c"), cs("relax"), Tok::Ch('x', 11), cs("iftrue"), cs("iffalse"), cs("else"), cs("fi")];
+    let mk = |a: Vec<Tok>, c: Vec<Tok>, xb: bool| {
+        let mut e = cond::primitives();
+        e.insert("a", Meaning::Macro(a));
+        e.insert("b", Meaning::Macro(vec![Tok::Ch('y', 11)]));
+        e.insert("c", Meaning::Macro(c));
+        if xb {
+            e.insert("xb", Meaning::ExpandAfter);
+        }
+        e
+    };
+    let mut with_xb = base.clone();
+    with_xb.push(cs("xb"));
+    vec![
+        XEnv { name: "chain", preamble: "\\def\\a{\\b}\\def\\b{y}\\def\\c{}", env: mk(vec![cs("b")], vec![], false), alphabet: base.clone() },
+        XEnv { name: "xa-in-body", preamble: "\\def\\a{\\xa\\b\\c}\\def\\b{y}\\def\\c{}", env: mk(vec![cs("xa"), cs("b"), cs("c")], vec![], false), alphabet: base.clone() },
+        XEnv { name: "two-names", preamble: "\\let\\xb=\\xa\\def\\a{\\b}\\def\\b{y}\\def\\c{}", env: mk(vec![cs("b")], vec![], true), alphabet: with_xb },
+        XEnv { name: "body-boundary", preamble: "\\def\\a{\\xa\\b}\\def\\b{y}\\def\\c{\\noexpand}", env: mk(vec![cs("xa"), cs("b")], vec![cs("noexpand")], false), alphabet: base },
+    ]
+}
+
+#[derive(PartialEq, Debug, Clone)]
+enum Verdict {
+    Tokens(Vec<Tok>),
+    Fails(String),
+}
+fn verdict_of_vm(o: &Outcome) -> Option<Verdict> {
+    match o {
+        Outcome::Done(r) => Some(match &r.err {
+            None => Verdict::Tokens(r.toks.clone()),
+            Some(e) => Verdict::Fails(e.clone()),
+        }),
+        Outcome::Panic(_) => None,
+        Outcome::Cutoff => None,
+    }
+}
+fn same(a: &Verdict, b: &Verdict) -> bool {
+    match (a, b) {
+        (Verdict::Tokens(x), Verdict::Tokens(y)) => x == y,
+        (Verdict::Fails(_), Verdict::Fails(_)) => true,
+        _ => false,
+    }
+}
+fn show_verdict(v: &Verdict) -> String {
+    match v {
+        Verdict::Tokens(t) => format!("delivers [{}]", mm::show(t)),
+        Verdict::Fails(e) => format!("fails ({e})"),
+    }
+}
+
+fn check_string(idx: u64, xe: &XEnv, env_no: usize, toks: &[Tok], full_state: bool, distinct: bool, acc: &mut Acc) {
+    acc.eval();
+    let mut tokens = toks.to_vec();
+    tokens.push(END);
+    let (tex, ev) = cond::expand_all(&xe.env, &tokens, true);
+    let tex = match tex {
+        Ok(t) => Verdict::Tokens(t),
+        Err(Stop::Budget) => {
+            acc.cutoffs += 1;
+            return;
+        }
+        Err(Stop::OutsideDomain(_)) | Err(Stop::Undefined(_)) => {
+            acc.skipped += 1;
+            return;
+        }
+        Err(s) => Verdict::Fails(format!("{s:?}")),
+    };
+    let src = format!("{}{}", xe.preamble, text_of(&tokens));
+    let case = || json!({"kind": "string", "env": env_no, "env_name": xe.name, "tokens": toks_json(toks), "full_state": full_state, "program": src});
+    let run = |opt: bool| if full_state { run_full(&src, &[], opt) } else { run_m(&src, &[], opt) };
+    let (s, o) = (run(false), run(true));
+    // counters from the case / the model
+    let is_xa = |t: &Tok| *t == Tok::Cs("xa") || *t == Tok::Cs("xb");
+    if ev.xa_chain >= 3 {
+        acc.count("expandafter_chain_ge_3");
+    }
+    if toks.windows(2).any(|w| is_xa(&w[0]) && w[1] == Tok::Cs("noexpand")) {
+        acc.count("noexpand_directly_after_expandafter");
+    }
+    if ev.xa_on_noexpand_expandable {
+        acc.count("expandafter_step_on_noexpand_expandable");
+    }
+    if ev.marker_dropped_by_backup {
+        acc.count("marker_dropped_by_back_input");
+    }
+    if ev.marked_token_skipped {
+        acc.count("marked_token_inside_skipped_text");
+    }
+    if toks.windows(3).any(|w| is_xa(&w[0]) && is_xa(&w[2]) && w[0] != w[2]) {
+        acc.count("chain_mixing_two_names_of_expandafter");
+    }
+    let expanded_something = ev.expansions > 0;
+    if expanded_something && toks.iter().any(is_xa) && matches!(tex, Verdict::Tokens(_)) {
+        acc.count("strings_where_expandafter_acts_and_tex_delivers");
+        if distinct {
+            acc.nontrivial();
+        }
+    }
+    for (which, out) in [("simple", &s), ("optimized", &o)] {
+        match out {
+            Outcome::Panic(p) => {
+                acc.fail(idx, case(), show_verdict(&tex), p.describe(), format!("the VM with the {which} \\expandafter panicked"));
+                return;
+            }
+            Outcome::Cutoff => {
+                acc.cutoffs += 1;
+                return;
+            }
+            _ => {}
+        }
+    }
+    let (vs, vo) = (verdict_of_vm(&s).unwrap(), verdict_of_vm(&o).unwrap());
+    if !same(&vs, &vo) {
+        acc.class("string DIFFERS simple vs optimized");
+        acc.fail(idx, case(), format!("both implementations of \\expandafter behave alike (TeX: {})", show_verdict(&tex)), format!("simple {} / optimized {}", show_verdict(&vs), show_verdict(&vo)), "get_expandafter_simple and get_expandafter_optimized are distinguishable");
+        return;
+    }
+    if same(&vs, &tex) {
+        acc.class(match &tex {
+            Verdict::Tokens(t) => {
+                if t.len() <= 1 {
+                    "string ok (nothing but the end marker delivered)"
+                } else {
+                    "string ok"
+                }
+            }
+            Verdict::Fails(_) => "string ok (all three fail)",
+        });
+        return;
+    }
+    // D18: predicate on the case (computed by the model) + adjusted expectation (marker lost when the
+    // expansion step was requested by \expandafter)
+    if ev.xa_on_noexpand_expandable {
+        let adj = match cond::expand_all(&xe.env, &tokens, false).0 {
+            Ok(t) => Some(Verdict::Tokens(t)),
+            Err(Stop::Budget) | Err(Stop::OutsideDomain(_)) | Err(Stop::Undefined(_)) => None,
+            Err(s) => Some(Verdict::Fails(format!("{s:?}"))),
+        };
+        if let Some(adj) = adj {
+            if same(&vs, &adj) {
+                acc.class("string: known finding D18 (don't-expand marker lost under \\expandafter)");
+                acc.known("D18", idx, || {
+                    let mut w = case();
+                    w["tex_delivers"] = json!(show_verdict(&tex));
+                    w["texcraft_delivers"] = json!(show_verdict(&vs));
+                    w
+                });
+                return;
+            }
+        }
+    }
+    acc.class(&format!("string DIFFERS from the reference expander (D18 predicate {})", ev.xa_on_noexpand_expandable));
+    acc.fail(idx, case(), show_verdict(&tex), format!("simple and optimized both: {}", show_verdict(&vs)), "the VM (both \\expandafter implementations) differs from the reference expander, and the difference is not the known class D18");
+}
+
+// ---------------------------------------------------------------- model self-validation
+
+fn self_validate() -> Result<(), String> {
+    // expectations recorded in the repository's own tests, replayed through the reference expander.
+    // crates/texlang-stdlib/src/expansion.rs: simple_case, only_expands_once, expandafter_and_noexpand_* (parameterless parts),
+    // crates/texlang-stdlib/src/conditional.rs: iftrue_*/iffalse_*/ifnum_*/ifodd_*/ifcase_* families.
+    let mut e = cond::primitives();
+    e.insert("A", Meaning::Macro(vec![Tok::Cs("B")]));
+    e.insert("B", Meaning::Macro(lex("Hello")));
+    e.insert("a", Meaning::Macro(lex("Hello")));
+    let cases: &[(&str, &str, &str)] = &[
+        ("expansion.rs simple_case", r"\noexpand\a", r"\a"),
+        ("expansion.rs only_expands_once", r"\xa\noexpand\A", r"\B"),
+        ("conditional.rs iftrue_base_case", r"\iftrue a\else b\fi c", "ac"),
+        ("conditional.rs iftrue_no_else", r"\iftrue a\fi c", "ac"),
+        ("conditional.rs iftrue_skip_nested_ifs", r"\iftrue a\else b\iftrue \else c\fi d\fi e", "ae"),
+        ("conditional.rs iffalse_base_case", r"\iffalse a\else b\fi c", "bc"),
+        ("conditional.rs iffalse_no_else", r"\iffalse a\fi c", "c"),
+        ("conditional.rs iffalse_skip_nested_ifs", r"\iffalse \iftrue a\else b\fi c\else d\fi e", "de"),
+        ("conditional.rs iffalse_and_iftrue_1", r"\iffalse a\else b\iftrue c\else d\fi e\fi f", "bcef"),
+        ("conditional.rs iffalse_and_iftrue_2", r"\iftrue a\iffalse b\else c\fi d\else e\fi f", "acdf"),
+        ("conditional.rs ifnum_less_than_true", r"\ifnum 4<5a\else b\fi c", "ac"),
+        ("conditional.rs ifnum_less_than_false", r"\ifnum 5<4a\else b\fi c", "bc"),
+        ("conditional.rs ifnum_equal_true_1", r"\ifnum 4=4a\else b\fi c", "ac"),
+        ("conditional.rs ifnum_equal_false", r"\ifnum 5=4a\else b\fi c", "bc"),
+        ("conditional.rs ifnum_greater_than_true", r"\ifnum 5>4a\else b\fi c", "ac"),
+        ("conditional.rs ifnum_greater_than_false", r"\ifnum 4>5a\else b\fi c", "bc"),
+        ("conditional.rs ifodd_odd", r"\ifodd 3a\else b\fi c", "ac"),
+        ("conditional.rs ifodd_even", r"\ifodd 4a\else b\fi c", "bc"),
+        ("conditional.rs ifcase_zero_no_ors", r"\ifcase 0 a\else b\fi c", "ac"),
+        ("conditional.rs ifcase_zero_one_or", r"\ifcase 0 a\or b\else c\fi d", "ad"),
+        ("conditional.rs ifcase_one", r"\ifcase 1 a\or b\else c\fi d", "bd"),
+        ("conditional.rs ifcase_one_more_cases", r"\ifcase 1 a\or b\or c\else d\fi e", "be"),
+        ("conditional.rs ifcase_else_no_ors", r"\ifcase 1 a\else b\fi c", "bc"),
+        ("conditional.rs ifcase_else_one_or", r"\ifcase 2 a\or b\else c\fi d", "cd"),
+        ("conditional.rs ifcase_no_matching_case", r"\ifcase 3 a\or b\or c\fi d", "d"),
+        ("conditional.rs ifcase_nested", r"\ifcase 1 a\or b\ifcase 1 c\or d\or e\else f\fi g\or h\fi i", "bdgi"),
+    ];
+    for (name, src, want) in cases {
+        let (got, _) = cond::expand_all(&e, &lex(src), true);
+        if got.as_ref() != Ok(&lex(want)) {
+            return Err(format!("{name}: reference expander gives {got:?}, the repository's test expects {want}"));
+        }
+    }
+    // TeX §368/§358 facts that the repository has no test for (stated from the program text)
+    let e2 = {
+        let mut e = cond::primitives();
+        e.insert("a", Meaning::Macro(vec![Tok::Cs("b")]));
+        e.insert("b", Meaning::Macro(lex("y")));
+        e
+    };
+    if cond::expand_all(&e2, &lex(r"\xa\a\noexpand\a"), true).0 != Ok(lex(r"y\a")) || cond::expand_all(&e2, &lex(r"\xa\a\noexpand\a"), false).0 != Ok(lex("yy")) {
+        return Err("the marker switch of the reference expander does not behave as documented".into());
+    }
+    // enumerator: bijection on a small shape
+    let s = Shape::new(deep_variants(), forms(false), 3, 3);
+    let mut seen = std::collections::HashSet::new();
+    for i in 0..s.total() {
+        if !seen.insert(format!("{:?}", s.unrank(i))) {
+            return Err(format!("tree enumerator produces a duplicate at index {i}"));
+        }
+    }
+    Ok(())
+}
+
+// ---------------------------------------------------------------- main
+
 fn main() {
-    eprintln!("c07: check not built yet");
-    std::process::exit(2);
+    let mut ctx = Ctx::new("C07", Level::Exploration);
+    ctx.assume("operands of \\ifnum / \\ifodd / \\ifcase are decimal constants, each terminated by a space token (the unterminated idiom `\\ifnum1<2\\else`, where TeX inserts \\relax while the condition is still being scanned, is outside the property's quantifier: design item D6b); cases in which the reference expander meets that situation are skipped, not judged");
+    ctx.assume("junk in skipped text is restricted to what TeX skips silently: braces and a macro hiding \\fi anywhere, \\or and \\else only where the skipping routine is at nesting level >= 1 (at level 0 they would belong to the conditional being skipped)");
+    ctx.assume("\\if, \\ifx, \\ifcat, \\ifdim do not exist in this stdlib (DESIGN C07 X); macros are parameterless; every control sequence of the alphabets is defined; on ill-formed strings (extra \\fi/\\else/\\or, input ending inside \\expandafter/\\noexpand/skipped text) only 'all three fail' is compared, not the partial output or the recovery");
+    ctx.assume("trusted: reftex::cond (tree expectation by construction, cross-checked on every tree against the reference expander §358/§366-369/§494-510; expander validated on 26 expectations copied from the repository's conditional.rs/expansion.rs tests). The marker semantics (§358, §367-369: marker survives until the token is next read, back_input drops it) is taken from the text of tex.web; no TeX binary is available");
+    if let Err(e) = self_validate() {
+        ctx.machinery_error(format!("model self-validation failed: {e}"));
+        ctx.finish("not run");
+    }
+    let xenvs = x_envs();
+
+    if let Some((_fam, case)) = ctx.replay_case() {
+        let mut acc = Acc::default();
+        let full = case["full_state"].as_bool().unwrap_or(false);
+        match case["kind"].as_str() {
+            Some("tree") => check_tree(0, &cond_parse(&case["tree"]), full, true, &mut acc),
+            Some("string") => {
+                let k = case["env"].as_u64().unwrap_or(0) as usize;
+                check_string(0, &xenvs[k], k, &toks_parse(&case["tokens"]), full, true, &mut acc)
+            }
+            _ => {
+                eprintln!("replay: unknown case kind");
+                std::process::exit(2);
+            }
+        }
+        after_family(&mut ctx);
+        ctx.finish_replay(acc);
+    }
+    let thorough = !ctx.quick();
+    let string_maxlen: u32 = ctx.pick(5, 7);
+    let wide_nodes: usize = ctx.pick(2, 3);
+
+    if std::env::var("C07_COUNTS").is_ok() {
+        for (n, d) in [(2, 2), (3, 3), (4, 4)] {
+            let s = Shape::new(wide_variants(), forms(true), n, d);
+            eprintln!("wide  nodes<={n} depth<={d}: {}", s.total());
+        }
+        for (n, d) in [(4, 3), (5, 3), (5, 4), (6, 4), (7, 4), (7, 5)] {
+            let s = Shape::new(deep_variants(), forms(false), n, d);
+            eprintln!("deep  nodes<={n} depth<={d}: {}", s.total());
+        }
+        std::process::exit(0);
+    }
+
+    // T1: every kind / operand in every context
+    {
+        let conds = all_conditions();
+        let n = conds.len() as u64 * N_CONTEXTS * 3;
+        let cref = &conds;
+        ctx.family(
+            "conditions-in-contexts",
+            &format!("{} conditions (\\iftrue, \\iffalse, \\let-alias, \\ifnum a R b for a,b in {{-3,-1,0,1,2,2^31-1}} x R in {{<,=,>}}, \\ifodd n for n in {{+-3,+-2,+-1,0,+-(2^31-1)}}, \\ifcase n for n in {{-1,0,1,2,3,7}} with 0-3 \\or; each with and without \\else) x 10 contexts (top level; live/skipped then- and else-branch; skipped / live / else branch of an \\ifcase; two levels inside skipped text) x 3 body patterns (letter; letter + nested \\iffalse..\\else..\\fi; empty)", conds.len()),
+            n,
+            |i, acc| {
+                let d = vcore::digits(i, &[cref.len() as u64, N_CONTEXTS, 3]);
+                let v = &cref[d[0] as usize];
+                let p = Cond { v: v.clone(), bodies: probe_bodies(v, d[2]) };
+                let c = in_context(d[1], p);
+                // \\iftrue / \\iffalse / alias / \\ifcase probes also occur in the tree families: counted there
+                check_tree(i, &c, false, matches!(v.head, Head::IfNum(..) | Head::IfOdd(_)), acc);
+                if i % 4001 == 17 {
+                    acc.sample(i, || json!({"program": text_of(&c.render().tokens)}));
+                }
+            },
+        );
+        after_family(&mut ctx);
+    }
+
+    // T2: all trees over the wide menu, with junk decorations
+    {
+        let (nodes, depth) = (wide_nodes, wide_nodes);
+        let pairs = thorough;
+        let shape = Shape::new(wide_variants(), forms(true), nodes, depth);
+        let n = shape.total();
+        let sref = &shape;
+        ctx.family(
+            "trees-wide",
+            &format!("every conditional tree with <= {nodes} nodes (depth <= {depth}) over 22 node variants (\\iftrue, \\iffalse, alias; \\ifcase (n, #\\or) in {{(0,0),(1,0),(0,1),(1,1),(2,1),(-1,1),(1,2),(2,2)}}; each with/without \\else), bodies in {{empty, L, C, LC, CL, CC}} (L = unique letter, C = nested conditional): {n} skeletons; each skeleton with <= 2 nodes also with every single{} insertion of junk ({{ }} \\hidfi; \\or \\else at level >= 1) at every position of every skipped body", if pairs { " and every pair of" } else { "" }),
+            n,
+            |i, acc| {
+                let skel = sref.unrank(i);
+                let mut k = 0u64;
+                if skel.render().facts.nodes <= 2 {
+                    for_each_decoration(&skel, pairs, |c| {
+                        check_tree(i, c, false, true, acc);
+                        k += 1;
+                    });
+                    acc.count_n("junk_decorated_trees", k - 1);
+                } else {
+                    check_tree(i, &skel, false, true, acc);
+                }
+                if i % 30011 == 7 {
+                    acc.sample(i, || json!({"program": text_of(&skel.render().tokens), "decorations": k.saturating_sub(1)}));
+                }
+            },
+        );
+        after_family(&mut ctx);
+    }
+
+    // T3: deeper trees over a small menu
+    {
+        let (nodes, depth, deco_nodes) = ctx.pick((5usize, 3usize, 3usize), (6, 4, 4));
+        let shape = Shape::new(deep_variants(), forms(false), nodes, depth);
+        let n = shape.total();
+        let sref = &shape;
+        ctx.family(
+            "trees-deep",
+            &format!("every conditional tree with <= {nodes} nodes and depth <= {depth} over 5 node variants (\\iftrue, \\iffalse with/without \\else; \\ifcase 1 with one \\or), bodies in {{L, C, LC, CL, CC}}: {n} skeletons; those with <= {deco_nodes} nodes also with every single junk insertion"),
+            n,
+            |i, acc| {
+                let skel = sref.unrank(i);
+                let mut k = 0u64;
+                // every tree of this family with <= wide_nodes nodes is also a tree of trees-wide
+                let distinct = skel.render().facts.nodes > wide_nodes;
+                if skel.render().facts.nodes <= deco_nodes {
+                    for_each_decoration(&skel, false, |c| {
+                        check_tree(i, c, false, distinct, acc);
+                        k += 1;
+                    });
+                    acc.count_n("junk_decorated_trees", k - 1);
+                } else {
+                    check_tree(i, &skel, false, distinct, acc);
+                }
+                if i % 100_003 == 9 {
+                    acc.sample(i, || json!({"program": text_of(&skel.render().tokens), "decorations": k.saturating_sub(1)}));
+                }
+            },
+        );
+        after_family(&mut ctx);
+    }
+
+    // T4: depth-6 chains with <= 2 deviations from a uniform chain
+    {
+        const DEPTH: usize = 6;
+        let wide = wide_variants();
+        let mut pairs: Vec<(Variant, usize)> = vec![];
+        for v in &wide {
+            for b in 0..v.branches() {
+                pairs.push((v.clone(), b));
+            }
+        }
+        let bases: Vec<(Variant, usize)> = vec![(Variant::new(Head::IfTrue, 0, false), 0), (Variant::new(Head::IfFalse, 0, true), 1), (Variant::new(Head::IfCase(1), 1, false), 1), (Variant::new(Head::IfFalse, 0, false), 0)];
+        let np = pairs.len() as u64;
+        let slots2 = (DEPTH * (DEPTH - 1) / 2) as u64;
+        let per_base = 1 + DEPTH as u64 * np + slots2 * np * np;
+        let n = bases.len() as u64 * per_base;
+        let (pref, bref) = (&pairs, &bases);
+        ctx.family(
+            "chains-depth-6",
+            &format!("straight nests of depth 6: 4 uniform base chains (all \\iftrue; all \\iffalse..\\else nested in the else branch; all \\ifcase 1 nested after the \\or; all \\iffalse nested in the skipped branch) with <= 2 levels replaced by any of the {np} (variant, hosting branch) pairs of the wide menu; every body carries letters"),
+            n,
+            |i, acc| {
+                let base = &bref[(i / per_base) as usize];
+                let mut j = i % per_base;
+                let mut levels: Vec<(Variant, usize)> = vec![base.clone(); DEPTH];
+                // a "deviation" equal to the base level repeats a chain that has fewer deviations
+                let mut distinct = true;
+                if j == 0 {
+                } else if j <= DEPTH as u64 * np {
+                    j -= 1;
+                    levels[(j / np) as usize] = pref[(j % np) as usize].clone();
+                    distinct = pref[(j % np) as usize] != *base;
+                } else {
+                    j -= 1 + DEPTH as u64 * np;
+                    let slot = j / (np * np);
+                    let (mut a, mut b, mut k) = (0usize, 1usize, 0u64);
+                    'f: for x in 0..DEPTH {
+                        for y in x + 1..DEPTH {
+                            if k == slot {
+                                a = x;
+                                b = y;
+                                break 'f;
+                            }
+                            k += 1;
+                        }
+                    }
+                    let r = j % (np * np);
+                    levels[a] = pref[(r / np) as usize].clone();
+                    levels[b] = pref[(r % np) as usize].clone();
+                    distinct = levels[a] != *base && levels[b] != *base;
+                }
+                let c = chain(&levels);
+                check_tree(i, &c, false, distinct, acc);
+                if i % 20011 == 3 {
+                    acc.sample(i, || json!({"program": text_of(&c.render().tokens)}));
+                }
+            },
+        );
+        after_family(&mut ctx);
+    }
+
+    // X1..X4: \expandafter / \noexpand strings, three-way
+    for (k, xe) in xenvs.iter().enumerate() {
+        let maxlen = string_maxlen;
+        let a = xe.alphabet.len() as u64;
+        let n = vcore::strings_upto(a, maxlen) - 1;
+        ctx.family(
+            &format!("expandafter-strings-{}", xe.name),
+            &format!("every token string of length 1..{maxlen} over {{{}}} after `{}`, followed by the end marker; three executions: VM with get_expandafter_simple, VM with get_expandafter_optimized, reference expander", xe.alphabet.iter().map(|t| mm::show(&[*t])).collect::<Vec<_>>().join(" "), xe.preamble),
+            n,
+            |i, acc| {
+                let toks: Vec<Tok> = vcore::nth_string(a, i + 1).into_iter().map(|j| xe.alphabet[j as usize]).collect();
+                check_string(i, xe, k, &toks, false, true, acc);
+                if i % 50_021 == 13 {
+                    acc.sample(i, || json!({"program": format!("{}{}", xe.preamble, text_of(&toks))}));
+                }
+            },
+        );
+        after_family(&mut ctx);
+    }
+
+    // X5: structured \\expandafter programs that the short strings cannot reach
+    {
+        let xe = &xenvs[2]; // \\xb is a second name of the primitive
+        let cs = Tok::Cs;
+        let x = Tok::Ch('x', 11);
+        // (a) flat chains  \\xa t1 \\xa t2 ... \\xa tk T rest
+        let maxk = ctx.pick(8u32, 11u32);
+        let targets: Vec<Vec<Tok>> = vec![vec![cs("a")], vec![cs("b")], vec![cs("c")], vec![x], vec![cs("relax")], vec![cs("noexpand"), cs("a")], vec![cs("noexpand"), x], vec![cs("iftrue")], vec![cs("iffalse"), x, cs("else")], vec![cs("xa"), x, cs("a")], vec![cs("xb"), cs("noexpand"), cs("a")]];
+        let rests: Vec<Vec<Tok>> = vec![vec![], vec![cs("a")], vec![x, cs("fi")]];
+        let n_flat: u64 = (1..=maxk).map(|k| 2u64.pow(k)).sum::<u64>() * 3 * targets.len() as u64 * rests.len() as u64;
+        // (b) pyramids: the idiom that expands n tokens in reverse order (2^(n-i)-1 \\expandafter before token i)
+        let menu: Vec<Vec<Tok>> = vec![vec![cs("a")], vec![cs("b")], vec![cs("c")], vec![x], vec![cs("noexpand"), cs("a")]];
+        let maxn = ctx.pick(4u32, 5u32);
+        let n_pyr: u64 = (2..=maxn).map(|n| (menu.len() as u64).pow(n) * 2).sum();
+        let (tref, rref, mref) = (&targets, &rests, &menu);
+        ctx.family(
+            "expandafter-structured",
+            &format!("(a) flat chains \\xa t1 .. \\xa tk T rest for k <= {maxk}, every ti in {{x, \\a}}, the k names of the primitive all \\xa / all \\xb / alternating, 11 targets T (macros, x, \\relax, \\noexpand\\a, \\noexpand x, \\iftrue, \\iffalse x\\else, nested \\xa x\\a, \\xb\\noexpand\\a), 3 continuations; (b) the reverse-order idiom with 2^(n-i)-1 \\expandafter in front of token i for n <= {maxn} tokens from a 5-item menu, with one or both names of the primitive; three executions each"),
+            n_flat + n_pyr,
+            |i, acc| {
+                let mut toks: Vec<Tok> = vec![];
+                if i < n_flat {
+                    let per_k = 3 * tref.len() as u64 * rref.len() as u64;
+                    let mut j = i;
+                    let mut k = 1u32;
+                    while j >= 2u64.pow(k) * per_k {
+                        j -= 2u64.pow(k) * per_k;
+                        k += 1;
+                    }
+                    let d = vcore::digits(j, &[2u64.pow(k), 3, tref.len() as u64, rref.len() as u64]);
+                    for b in 0..k {
+                        let name = match d[1] {
+                            0 => "xa",
+                            1 => "xb",
+                            _ => {
+                                if b % 2 == 0 {
+                                    "xa"
+                                } else {
+                                    "xb"
+                                }
+                            }
+                        };
+                        toks.push(cs(name));
+                        toks.push(if (d[0] >> b) & 1 == 0 { x } else { cs("a") });
+                    }
+                    toks.extend_from_slice(&tref[d[2] as usize]);
+                    toks.extend_from_slice(&rref[d[3] as usize]);
+                } else {
+                    let mut j = i - n_flat;
+                    let mut n = 2u32;
+                    while j >= (mref.len() as u64).pow(n) * 2 {
+                        j -= (mref.len() as u64).pow(n) * 2;
+                        n += 1;
+                    }
+                    let two_names = j % 2 == 1;
+                    let d = vcore::digits(j / 2, &vec![mref.len() as u64; n as usize]);
+                    for (pos, item) in d.iter().enumerate() {
+                        let count = 2u64.pow(n - 1 - pos as u32) - 1;
+                        for c in 0..count {
+                            toks.push(cs(if two_names && c % 2 == 1 { "xb" } else { "xa" }));
+                        }
+                        toks.extend_from_slice(&mref[*item as usize]);
+                    }
+                }
+                check_string(i, xe, 2, &toks, false, toks.len() > string_maxlen as usize, acc);
+                acc.count("structured_expandafter_programs");
+                if i % 20_011 == 5 {
+                    acc.sample(i, || json!({"program": format!("{}{}", xe.preamble, text_of(&toks))}));
+                }
+            },
+        );
+        after_family(&mut ctx);
+    }
+
+    // W: wiring conformance on the full harness state
+    {
+        let shape = Shape::new(wide_variants(), forms(true), ctx.pick(1, 2), 2);
+        let nt = shape.total();
+        let xe = &xenvs[0];
+        let a = xe.alphabet.len() as u64;
+        let ns = vcore::strings_upto(a, ctx.pick(2, 4)) - 1;
+        let sref = &shape;
+        ctx.family("full-state-slice", &format!("on vtex::HState (full stdlib state and built-ins) instead of the minimal state: the {nt} skeletons of trees-wide with <= {} nodes, and the {ns} shortest strings of expandafter-strings-chain (both \\expandafter implementations)", ctx.pick(1, 2)), nt + ns, |i, acc| {
+            if i < nt {
+                check_tree(i, &sref.unrank(i), true, false, acc);
+            } else {
+                let toks: Vec<Tok> = vcore::nth_string(a, i - nt + 1).into_iter().map(|j| xe.alphabet[j as usize]).collect();
+                check_string(i, xe, 0, &toks, true, false, acc);
+            }
+            acc.count("full_state_runs");
+        });
+        after_family(&mut ctx);
+    }
+
+    ctx.require("aliased_conditional_in_skipped_text", "skipped text contains a conditional written through \\let aliases");
+    ctx.require("or_at_depth_gt0_in_skipped_text", "an \\or at nesting level > 0 inside skipped text");
+    ctx.require("else_at_depth_gt0_in_skipped_text", "an \\else at nesting level > 0 inside skipped text");
+    ctx.require("ifcase_out_of_range", "\\ifcase with a value beyond the last \\or");
+    ctx.require("ifcase_negative", "\\ifcase with a negative value");
+    ctx.require("ifodd_negative_odd_evaluated", "\\ifodd evaluated on a negative odd number");
+    ctx.require("brace_in_skipped_text", "an unbalanced brace in skipped text");
+    ctx.require("live_case_branch_ended_by_or", "the selected \\ifcase branch is ended by \\or");
+    ctx.require("depth_6", "a tree of nesting depth 6");
+    ctx.require("junk_decorated_trees", "trees with junk inserted into skipped text");
+    ctx.require("expandafter_chain_ge_3", "an \\expandafter expanding an \\expandafter expanding an \\expandafter");
+    ctx.require("noexpand_directly_after_expandafter", "\\noexpand directly after \\expandafter");
+    ctx.require("expandafter_step_on_noexpand_expandable", "an \\expandafter performs its expansion step on \\noexpand followed by an expandable token (the D18 predicate)");
+    ctx.require("marker_dropped_by_back_input", "a marked token is read and backed up (TeX drops the marker)");
+    ctx.require("marked_token_inside_skipped_text", "a marked \\fi/\\else/\\if.. is passed over while skipping");
+    ctx.require("chain_mixing_two_names_of_expandafter", "a chain \\xa t \\xb mixing two names of the primitive");
+    ctx.require("structured_expandafter_programs", "long chains and reverse-order pyramids of \\expandafter");
+    ctx.require("full_state_runs", "cases re-run on the full vtex::HState");
+    ctx.finish("trees: every tree of the enumerated families on a fresh VM, compared token by token with the letters of the selected branches (non-trivial = at least one branch skipped and at least one delivered); strings: every token string of the family run three times (non-trivial = contains \\expandafter, something was expanded and TeX delivers tokens). distinct_nontrivial counts a case once: re-runs on the full state are not counted, trees of trees-deep / conditions-in-contexts / chains and programs of expandafter-structured that another family also enumerates are counted only there (the counters trees_with_a_skipped_and_a_delivered_branch and strings_where_expandafter_acts_and_tex_delivers give the totals with repetitions)");
 }
